@@ -4,7 +4,7 @@ import math
 
 import numpy as np
 
-from .core import SimBudget, digest_field, tol
+from .core import SimBudget, digest_field, tol, ulp
 
 
 
@@ -143,8 +143,13 @@ def check_c07(r, ex, stats):
         else:
             Tb = r.tsave[-1] if r.tsave else None
         mx = r.stop.get("maxit") if r.stop else None
+        # (a time step below the resolution of the clock cannot advance it: `t + dt == t`; such a
+        #  run - the aftermath of a blown-up state - legitimately never reaches its stop time)
+        tref = max(abs(r.f_before[1]), abs(Tb) if Tb is not None else 0.0)
+        resolvable = hmin_obs > 8 * ulp(tref)
         must_have_stopped = (mx is not None and mx < nt - 1) or \
-            (Tb is not None and fin and (Tb - r.f_before[1]) < (nt - 2) * hmin_obs * (1 - 1e-9))
+            (Tb is not None and fin and resolvable and
+             (Tb - r.f_before[1]) < (nt - 2) * hmin_obs * (1 - 1e-9))
         if fin and must_have_stopped:
             bad("T9", "call did not terminate within %d ticks on a finite trajectory (tottime=%r maxit=%r, smallest tick %r)" %
                 (nt, Tb, mx, hmin_obs))
@@ -489,7 +494,7 @@ def check_c08(r, ex, stats):
             if sn[2] not in (r.itstart + kk, r.itstart + kk + 1):
                 bad("P4", "snapshot %d carries it=%d, expected %d (= %d + %d full steps)" %
                     (k, sn[2], r.itstart + kk, r.itstart, kk), cls + "/snapshot-it")
-        elif sn[1] == t0 and sn[0] == r.f_before[0] and k == 0:
+        elif sn[1] == t0 and sn[0] == r.f_before[0] and k == 0 and any(sv == t0 for sv in r.tsave):
             stats["P4"] += 1
             if sn[2] != r.itstart:
                 bad("P4", "snapshot of the initial state carries it=%d, expected %d" % (sn[2], r.itstart),
